@@ -240,7 +240,7 @@ func runWal(c *hx.Ctx, r *hx.Rng, st *state) bool {
 	line := c.Emit(op, ans)
 	c.Count("wal:tail:" + tail)
 	c.Count(fmt.Sprintf("wal:complete-records:%d", len(recs)))
-	c.Case(op, tail != "clean")
+	c.Case(opKey(op), tail != "clean")
 	if perr != "" {
 		c.Violation(line, "wal_replay_panic", perr)
 		return true
